@@ -59,6 +59,7 @@ func init() {
 		emit("isStaleReadFn", "", "IsStaleRead")
 		emit("fsmApply", "Store", "fsmApply")
 		emit("fsmRestore", "Store", "fsmRestore")
+		emit("isVoter", "Store", "IsVoter")
 
 		// every write of strongReadTerm in package store: "<Func>: <call source>", sorted
 		var stores []string
